@@ -14,6 +14,7 @@ mod c02;
 mod c03;
 mod c04;
 mod c05;
+mod c06;
 mod c07;
 mod c09;
 mod c10;
@@ -58,6 +59,7 @@ fn main() {
         "c05-txn" => c05::txn_leg(&args),
         "c05-atomic" => c05::atomic_leg(&args),
         "c17-unchanged" => c17::leg(&args),
+        "c06-converge" => c06::converge_leg(&args),
         "c07-laws" => c07::laws_leg(&args),
         "c20-dump" => c20::dump_cmd(&args),
         "c20-repro" => c20::repro_leg(&args),
